@@ -280,12 +280,23 @@ def reference_order(sp, cs, ctx):
     return ord_
 
 
-def req(cs, opt):
+def req(cs, opt, word='ren'):
+    """`ren` = all observables of ren.c too (short lines); `dir` = dir_context / dir_match / dir_reorder only
+    (the long lines: the model of the column functions needs seconds on 300 characters)"""
     b = rc.enc(cs) if not isinstance(cs, (bytes, bytearray)) else bytes(cs)
-    return 'ren %s %d %d %d' % (vlib.hx(b), opt[0], opt[1], opt[2])
+    return '%s %s %d %d %d' % (word, vlib.hx(b), opt[0], opt[1], opt[2])
 
 
-def oracle_dir(sp, cs, td, o):
+DEPTH_SAFE = 250      # runs up to this length never reach the recursion limit of regex.c (NDEPT = 256 minus the forks in front)
+
+
+def oracle_dir(sp, cs, td, o, cut=0):
+    """cut = how often the regex engine hit its recursion limit while this line was reordered (hook
+    re_verif_depthcut).  Documented engine limit (as in C10/C12): a repetition is cut after about 256
+    characters, so a longer run is matched -- and reversed -- in consecutive pieces.  With cut > 0 the
+    exact expectation is kept for every run of at most DEPTH_SAFE characters; inside a longer run only
+    the structure is required (the run's positions are permuted among themselves, in blocks that are
+    each one reversed sub-run with letters at both ends)."""
     n = len(cs)
     ord_ = rc.ilist(o['ord'])
     if sorted(ord_) != list(range(n)):
@@ -331,12 +342,29 @@ def oracle_dir(sp, cs, td, o):
             if sp.alnum(seg[0]) and not sp.has_marks(seg) and not sp.alnum(seg[-1]):
                 return ('right-to-left line: the reordered Latin run %d..%d does not end in a Latin letter or digit' % (b, e - 1), list(range(b, e)), ord_[b:e])
     # the exact order on lines with marks: the mechanism with an independent matcher
-    if sp.has_marks(body) and nb <= 100:
+    if sp.has_marks(body) and nb <= 100 and not cut:
         want = reference_order(sp, cs, ctx)
         if want is not None and want != ord_:
             return ('the marks of the line, matched left to right and reversed / entered as configured, give the order %s' % want, want, ord_)
     # completeness before the first mark character: a run that ends before any `\` or `$` is reversed
     firstmark = min([i for i, c in enumerate(body) if c in (0x5c, 0x24)] + [nb])
+    loose = []           # long runs of a line on which the engine limit was hit
+
+    def mirror(want, b, e):
+        if cut and e - b > DEPTH_SAFE:
+            loose.append((b, e))
+            for i in range(b, e):
+                want[i] = None
+        else:
+            for i in range(b, e):
+                want[i] = b + e - 1 - i
+
+    def loose_ok():
+        for b, e in loose:
+            if sorted(ord_[b:e]) != list(range(b, e)):
+                return ('a run of opposite-direction letters longer than the matcher\'s depth limit (positions %d..%d) may be reversed in pieces, but its '
+                        'characters must stay inside the run' % (b, e - 1), list(range(b, e)), ord_[b:e])
+        return None
     if sp.has_marks(body):
         want = list(range(n))
         for b, e in sp.runs(body[:firstmark], ctx):
@@ -344,24 +372,22 @@ def oracle_dir(sp, cs, td, o):
             if e < firstmark or firstmark == nb:
                 full = [r for r in sp.runs(cs, ctx) if r[0] == b]
                 if full and full[0] == (b, e):
-                    for i in range(b, e):
-                        want[i] = b + e - 1 - i
+                    mirror(want, b, e)
         for i in range(firstmark):
-            if want[i] != i and ord_[i] != want[i]:
+            if want[i] is not None and want[i] != i and ord_[i] != want[i]:
                 return ('the run of opposite-direction letters before the first mark must be reversed in place: position %d is %d, expected %d'
                         % (i, ord_[i], want[i]), want[:firstmark], ord_[:firstmark])
-        return None
+        return loose_ok()
     want = list(range(n))
     for b, e in sp.runs(cs, ctx):
-        for i in range(b, e):
-            want[i] = b + e - 1 - i
-    if ord_ != want:
+        mirror(want, b, e)
+    if any(w is not None and w != g for w, g in zip(want, ord_)):
         opp = [c for c in body if (c in sp.cr2l if ctx > 0 else sp.alnum(c))]
         if not opp:
             return ('a line with no opposite-direction character and no mark must keep logical order, got %s' % ord_, want, ord_)
         return ('each run of opposite-direction letters (with the neutrals inside) must be reversed in place and the rest keep its place: runs %s'
                 % sp.runs(cs, ctx), want, ord_)
-    return None
+    return loose_ok()
 
 
 def oracle_shape(sp, cs, ans):
@@ -460,8 +486,41 @@ def gen_lines(ctx):
     return cases
 
 
+def gen_long(ctx):
+    """lines whose opposite-direction run is around / beyond the recursion limit of the regex engine (256):
+    pure runs and runs with neutrals inside, in a left-to-right line (Arabic run) and in a right-to-left line
+    (Latin run), a short run after the long one"""
+    rng = ctx.rng.fork('long')
+    out = []
+    lens = [250, 254, 255, 256, 257, 258, 300] if ctx.quick else [200, 250, 251, 252, 253, 254, 255, 256, 257, 258, 259, 260, 300, 511, 512, 513, 520, 600, 1030]
+    for L in lens:
+        for kind in range(5):
+            if kind == 0:
+                cs, td = [0x61, 0x20] + [ARAB[i % 7] for i in range(L)], 0
+            elif kind == 1:
+                cs, td = [0x61, 0x20] + [ARAB[i % 5] if i % 7 else 0x20 for i in range(L - 1)] + [0x627], 1
+            elif kind == 2:
+                cs, td = [0x627, 0x20] + [LATIN[i % 4] for i in range(L)], -1
+            elif kind == 3:
+                cs, td = [0x627, 0x20] + [LATIN[i % 4] if i % 5 else 0x20 for i in range(L - 1)] + [0x61, 0x20, 0x628], 0
+            else:
+                cs = [rng.choice(LATIN), 0x20] + [rng.choice(rng.choice([ARAB, ARAB, ARAB, NEUT, DIAC])) for _ in range(L - 2)] + [0x628, 0x628]
+                cs += [0x20, 0x62, 0x20, 0x633, 0x644, 0x20, 0x63]
+                td = rng.choice([0, 1, 2])
+            out.append((cs + [NL], (1, td, 100000)))
+    return out
+
+
 def run(ctx):
+    import time
     res = ctx.res
+    t0 = time.time()
+    tm = res.extra.setdefault('wall_seconds_by_phase', {})
+
+    def lap(name):
+        nonlocal t0
+        tm[name] = round(time.time() - t0, 1)
+        t0 = time.time()
     sp = Spec(rc.tables())
     if not sp.ok:
         res.broken_ties.append('the shape of dircontexts/dirmarks changed: CR2L/CNEUT could not be read from the generated tables')
@@ -477,21 +536,24 @@ def run(ctx):
         inputs = []
         for f in sorted(glob.glob(os.path.join(vlib.VERIF, 'corpus', 'C18-*.json'))):
             inputs += json.load(open(f)).get('input', [])
-    cases, mal, shape_cases = [], [], []
+    cases, mal, shape_cases, long_cases = [], [], [], []
     for r in inputs:
         w = r.split()
-        if w and w[0] in ('ren', 'shape'):
+        if w and w[0] in ('ren', 'dir', 'shape'):
             b = vlib.unhx(w[1])
             try:
                 cs = [ord(ch) for ch in b.decode('utf-8')]
             except UnicodeDecodeError:
                 cs = None
-            if w[0] == 'ren':
+            if w[0] == 'dir' and cs is not None:
+                long_cases.append((cs, (int(w[2]), int(w[3]), int(w[4]))))
+            elif w[0] in ('ren', 'dir'):
                 (cases if cs is not None else mal).append((cs if cs is not None else b, (int(w[2]), int(w[3]), int(w[4]))))
             elif cs is not None:
                 shape_cases.append(cs)
     if not ctx.replay:
         cases += gen_lines(ctx)
+        long_cases += gen_long(ctx)
         rng = ctx.rng
         for _ in range(200 if ctx.quick else 3000):
             n = rng.range(1, 10)
@@ -501,8 +563,13 @@ def run(ctx):
             except UnicodeDecodeError:
                 mal.append((b, (1, rng.choice([-2, -1, 0, 1, 2]), 256)))
     # ---------------- dir_context / dir_match / dir_reorder
-    reqs = [req(cs, opt) for cs, opt in cases] + [req(b, opt) for b, opt in mal]
-    obs, mo, mreq, errs = rc.run_ren(probe, model, reqs)
+    lap('build probes and model')
+    nshort = len(cases)
+    words = ['ren'] * nshort + ['dir'] * len(long_cases)
+    cases = cases + long_cases
+    reqs = [req(cs, opt, w) for (cs, opt), w in zip(cases, words)] + [req(b, opt) for b, opt in mal]
+    heads = []
+    obs, mo, mreq, errs = rc.run_ren(probe, model, reqs, heads=heads)
     for e, part in errs or []:
         if e.startswith('probe'):
             res.violation({'what': 'the implementation crashed or hung: ' + e[:300], 'input': part[:40]})
@@ -530,19 +597,24 @@ def run(ctx):
         else:
             res.violation({'what': 'sanitized build reports an error or crashes: ' + e[-1200:], 'input': part[:40]})
     nviol = 0
-    for (cs, opt), r, a in zip(cases, reqs, obs):
+    for (cs, opt), word, r, a, hd in zip(cases, words, reqs, obs, heads):
         if a is None:
             continue
         res.evaluations += 1
         res.count('valid lines')
         res.count('td=%d' % opt[1])
+        cut = int((hd or {}).get('cut', 0))
+        if word == 'dir':
+            res.count('lines with a run around or beyond the depth limit of the regex engine')
+        if cut:
+            res.count('lines on which the regex engine hit its depth limit (exact run expectation only for runs <= %d characters)' % DEPTH_SAFE)
         if any(c in sp.cr2l or c in (0x5c, 0x24) for c in cs):
             res.nontriv(r)
         if sp.has_marks(cs):
             res.count('lines with marks')
         o = rc.parse_obs(a)
         try:
-            bad = oracle_dir(sp, cs, opt[1], o)
+            bad = oracle_dir(sp, cs, opt[1], o, cut)
         except Exception as e:
             bad = ('oracle could not read the answer: %r' % e, None, a[:300])
         if bad:
@@ -550,21 +622,26 @@ def run(ctx):
             if nviol > 3:
                 continue
 
-            def fails(subcs, opt=opt):
-                o2, _m2, _q2, e2 = rc.run_ren(probe, None, [req(subcs, opt)], chunks=1)
+            def one(subcs, opt=opt, word=word):
+                h2 = []
+                o2, _m2, _q2, e2 = rc.run_ren(probe, None, [req(subcs, opt, word)], chunks=1, heads=h2)
                 if e2 or o2[0] is None:
-                    return False
+                    return None, None
+                d2 = rc.parse_obs(o2[0])
+                return oracle_dir(sp, subcs, opt[1], d2, int((h2[0] or {}).get('cut', 0))), d2
+
+            def fails(subcs):
                 try:
-                    return oracle_dir(sp, subcs, opt[1], rc.parse_obs(o2[0])) is not None
+                    return one(subcs)[0] is not None
                 except Exception:
                     return False
             small = vlib.shrink(cs, fails, max_steps=150)
-            o2, _m2, _q2, _e2 = rc.run_ren(probe, None, [req(small, opt)], chunks=1)
-            b2 = oracle_dir(sp, small, opt[1], rc.parse_obs(o2[0])) or bad
-            d2 = rc.parse_obs(o2[0])
-            res.violation({'what': b2[0], 'input': [req(small, opt)], 'line_code_points': ['U+%04X' % c for c in small],
-                           'options': {'order': opt[0], 'td': opt[1], 'lim': opt[2]}, 'expected': b2[1], 'observed': b2[2],
-                           'answer': {k: d2.get(k) for k in keys}})
+            b2, d2 = one(small)
+            b2 = b2 or bad
+            d2 = d2 or {}
+            res.violation({'what': b2[0][:1500], 'input': [req(small, opt, word)], 'line_code_points': ['U+%04X' % c for c in small][:300],
+                           'options': {'order': opt[0], 'td': opt[1], 'lim': opt[2]}, 'expected': str(b2[1])[:1500], 'observed': str(b2[2])[:1500],
+                           'answer': {k: str(d2.get(k))[:1500] for k in keys}})
     res.count('malformed lines (model vs code only)', len(mal))
     res.evaluations += len(mal)
     # the matcher hypothesis (spans in bounds, non-empty) on every recorded answer
@@ -588,8 +665,9 @@ def run(ctx):
                 if nbadspan <= 2:
                     res.disagree({'what': 'a mark matched with an empty or out-of-range span (hypothesis of C18_terminates / C18_runs_reversed)', 'input': [r],
                                   'call': rec, 'spans': m})
+    lap('dir requests: probe, model, sanitized probe, oracle')
     # ---------------- shaping
-    shape_cases += [cs for cs, _o in cases if any(c in sp.cr2l or sp.r2l(c) for c in cs)]
+    shape_cases += [cs for cs, _o in cases[:nshort] if any(c in sp.cr2l or sp.r2l(c) for c in cs)]
     if not ctx.replay:
         rng = ctx.rng
         # every letter with every kind of neighbour, diacritics in between
@@ -709,6 +787,7 @@ def run(ctx):
                            'expected': want_fa[:300], 'observed': tail[-1][:300]})
         res.count('code points (find_achar, exhaustive)', 0x110001)
     check_table(res, sp)
+    lap('shaping: lines and sweeps')
     for (cs, opt), r, a in list(zip(cases, reqs, obs))[:3000:501]:
         res.sample({'request': r, 'answer': {k: rc.parse_obs(a or '').get(k) for k in keys}})
     res.extra['cr2l_size'] = len(sp.cr2l)
